@@ -273,3 +273,23 @@ Example parse_example :
   Ok {| host := raw "10.0.0.1"%hex; port := 19386; timeout := 60000; istcp := 1; grid := 0; qos := 0; weight := 100;
         wtype := 1; auth := 0; proto := s_tcp; bind := []; setid := []; key := raw "tcp -h 10.0.0.1 -p 19386 -t 60000"%hex |}.
 Proof. vm_compute. reflexivity. Qed.
+
+(* converse of fields_render: on EVERY string (not only rendered ones) the tokenizer yields proper tokens
+   only — no empty field, no blank inside a field — so an option letter or value never contains a blank *)
+Lemma nonspace_rev cur : nonspace cur -> nonspace (List.rev cur).
+Proof. unfold nonspace; intro H; apply Forall_forall; intros c Hc; apply in_rev in Hc;
+       exact (proj1 (Forall_forall _ _) H c Hc). Qed.
+Lemma fields_aux_all_tokens : forall s cur, nonspace cur -> Forall token (fields_aux cur s).
+Proof.
+  induction s as [|c r IH]; intros cur Hcur; cbn [fields_aux].
+  - destruct cur as [|x xs]; [constructor|]. constructor; [|constructor]. split.
+    + intro E; apply (f_equal (@length N)) in E; rewrite rev_length in E; discriminate E.
+    + apply nonspace_rev; exact Hcur.
+  - destruct (is_space c) eqn:Hsp.
+    + destruct cur as [|x xs]; [apply IH; constructor|]. constructor; [|apply IH; constructor]. split.
+      * intro E; apply (f_equal (@length N)) in E; rewrite rev_length in E; discriminate E.
+      * apply nonspace_rev; exact Hcur.
+    + apply IH; constructor; [exact Hsp|exact Hcur].
+Qed.
+Theorem fields_all_tokens s : Forall token (fields s).
+Proof. apply fields_aux_all_tokens; constructor. Qed.
